@@ -835,7 +835,10 @@ class VarsCollector:
 				if decl_var.domain_name != add_var.domain_name:
 					continue
 
-				if add_var.scope.startswith(decl_var.scope):
+				# スコープの包含関係は要素単位で判定する ※文字列の前方一致では'for@10'と'for@107'を混同する
+				decl_module_path, decl_elems = ModuleDSN.expanded(decl_var.scope)
+				add_module_path, add_elems = ModuleDSN.expanded(add_var.scope)
+				if decl_module_path == add_module_path and add_elems[:len(decl_elems)] == decl_elems:
 					relationed = True
 					break
 
